@@ -62,14 +62,14 @@ Bound == MaxSteps = 0 \/ TLCGet("level") <= MaxSteps + 1
 (* RobinHood => HashMap: every step is a step of the abstract map with the same reported results *)
 Refines == [][HMStep(op')]_mcvars
 
-FS0 == {<<>>}
 FSLayout == {<<>>, <<3, 3, 3, 3, 3>>, <<1, 3>>, <<3, 0>>}
 FSSmall == {<<>>, <<3>>, <<1, 3>>, <<3, 3, 3, 3, 3>>, <<3, 0>>, <<1, 4>>}
 FSGen == {<<>>, <<3>>, <<1, 3>>, <<3, 3>>, <<3, 1, 3>>, <<1, 1, 3>>, <<3, 3, 3, 3>>, <<1, 3, 1, 3>>, <<3, 3, 0>>, <<3, 7>>,
           <<1, 1, 4>>, <<2>>, <<3, 2>>, <<1, 3, 3, 3, 3, 3>>, <<3, 3, 3, 3, 3, 3, 3, 3>>, <<0>>}
 BothModes == {TRUE, FALSE}
 OnlyDestructors == {TRUE}
-OutOnly == {FALSE}
+(* OutModes: is remove given an out-parameter (no destructors) / is iterator delete told NOT to destroy *)
+NoOutParam == {FALSE}
 OutBoth == {TRUE, FALSE}
 NoSet == {-1}
 SetSome == {-1, 2}
